@@ -119,8 +119,8 @@ def _trace_prop(t, k):
 ASSUME = ['memory map broker only: the Redis half (Lua scripts) cannot be executed in this sandbox',
           'single channel per behaviour (every map of the code is keyed by channel; the per-channel pubLock serialises writers)',
           'tick clock: one model tick = 1 s (own sweeper goroutines) or 400 ms (manual sweeps); every TTL is configured as k-1/2 ticks so '
-          'that every deadline is a tick boundary; behaviours whose operations would leave the middle quarter of their tick are abandoned, not judged',
-          'sweeper wake-up jitter < 0.25 s (a late sweeper gets 0.6 s of slack, then the behaviour is abandoned as late)',
+          'that every deadline is a tick boundary; behaviours whose operations would start later than 0.4 tick after the middle of their tick are abandoned, not judged',
+          'a sweeper that is late (load) gets 0.6 s of slack before the state is judged; the behaviour is then abandoned as late',
           'delta publishing (UseDelta/prevPub), tags, client info and keyless publishes are outside the spec']
 
 
